@@ -107,6 +107,19 @@ pub fn rx_op(rate: u32, taps: &Taps, evs: &[SameReceiverEvent]) -> (String, Stri
     (format!("rx.run {} {} {}", rate, sym0, if s.is_empty() { "-".to_owned() } else { s }), show_events(evs))
 }
 
+/// "event timestamps equal the number of samples consumed so far": events are only produced while a symbol tick is
+/// processed, so every event's timestamp must be the input sample counter of a tick (tap T3), and an event may not
+/// carry an earlier tick's counter than the event before it
+pub fn stamps_verdict(taps: &Taps, evs: &[SameReceiverEvent]) -> String {
+    let ticks: std::collections::HashSet<u64> = taps.ticks.iter().map(|t| t.input_sample_counter).collect();
+    for e in evs {
+        if !ticks.contains(&e.input_sample_counter()) {
+            return format!("event_{}_is_not_stamped_with_the_sample_count_of_the_tick_that_produced_it", show_event(e).chars().take(40).collect::<String>().replace(' ', "_"));
+        }
+    }
+    "ok".to_owned()
+}
+
 /// front-end margins measured on the taps of one transmission (evidence, not judged)
 pub fn fe_margins(out: &mut Out, taps: &Taps) {
     // tick spacing extremes in input samples
@@ -183,7 +196,17 @@ pub fn run_c01(ctx: &Ctx) {
         if long_lead {
             lg.lead_in = 136.0 + rng.unit() * 24.0;
         }
-        let hdr = if i % 16 == 0 { gen_header(&mut rng, 31, 8) } else { gen_header_any(&mut rng) };
+        let mut hdr = if i % 16 == 0 { gen_header(&mut rng, 31, 8) } else { gen_header_any(&mut rng) };
+        // one case in eight: text that looks like the preamble at some bit shift (0xAB rotated is 'W' 0x57, ']' 0x5d,
+        // 'u' 0x75, ...; "WWWW/" read one bit late is exactly the 32-bit sync word) in the callsign, the event/originator
+        // code — legal SAME characters that must not disturb the byte synchronisation of a burst being read
+        if i % 8 == 5 {
+            hdr.call = (*rng.pick(&["WWWW/FM ", "KVWWW/AM", "]]]]]]]]", "uuuuu/AM", "WWWWWWWW", "VWWW/NWS", "WWWW1"])).to_owned();
+            if rng.chance(1, 2) {
+                hdr.org = "WWW".to_owned();
+                hdr.evt = "WWW".to_owned();
+            }
+        }
         let h = hdr.text().into_bytes();
         let voice_gap = match rng.below(4) {
             0 => 1.0,
@@ -991,6 +1014,7 @@ pub fn run_long(ctx: &Ctx) {
         out.spec(&format!("spec.sig c09 {};{} [{}] => {}", rate, a.samples.len(), label, evline));
         out.spec(&format!("spec.sig c04 {} [{}] => {}", rate, label, evline));
         out.spec(&format!("spec.sig c13life - [{}] => {}", label, evline));
+        out.spec(&format!("spec.sig c13stamp - [{}] => {}", label, stamps_verdict(&taps, &evs)));
         out.count(&format!("kind:{}", kind));
         let maxb = evs.iter().filter_map(|e| e.burst().map(|b| b.len())).max().unwrap_or(0);
         out.count(&format!("max_burst_len_bucket:{}", maxb / 50 * 50));
@@ -1418,6 +1442,7 @@ pub fn run_hostile(ctx: &Ctx) {
             }
             eprintln!("  transmitted bursts at {:?}", a.bursts.iter().filter(|b| b.0 >= prefix_end).collect::<Vec<_>>());
         }
+        let samples2 = samples.clone();
         let result = std::panic::catch_unwind(move || {
             let mut r = build(cfg, rate);
             let (evs, taps) = run_tapped(&mut r, &samples);
@@ -1441,6 +1466,20 @@ pub fn run_hostile(ctx: &Ctx) {
                 let evline = show_events(&evs);
                 out.spec(&format!("spec.sig c04 {} [{}] => {}", rate, label, evline));
                 out.spec(&format!("spec.sig c13life - [{}] => {}", label, evline));
+                // "the same as from a cold start", literally, where the prefix provably leaves nothing behind: after
+                // the long-idle kind every history window has expired and every message of the prefix is closed, so
+                // the messages after the prefix must be those of a fresh receiver given only the rest of the audio
+                // (same texts in the same order, each within a quarter of a second of its cold-start time)
+                if kinds.last() == Some(&"open_header_then_long_idle") {
+                    let mut cold = build(cfg, rate);
+                    let cold_msgs = messages(&run_plain(&mut cold, &samples2[prefix_end..]));
+                    let rel = |v: &[(u64, String)], off: u64| -> String {
+                        let v: Vec<String> = v.iter().filter(|(t, _)| *t > off).map(|(t, s)| format!("{}:{}", t - off, s)).collect();
+                        if v.is_empty() { "-".to_owned() } else { v.join(",") }
+                    };
+                    out.spec(&format!("spec.sig c10cold {} [{}] => {} || {}", rate, label, rel(&msgs, prefix_end as u64), rel(&cold_msgs, 0)));
+                    out.count("cold_start_comparisons");
+                }
             }
         }
         for k in &kinds {
